@@ -197,7 +197,9 @@ class ModuleInfo:
         self.path = path
         self.relpath = relpath
         self.src = src
-        self.tree = ast.parse(src, filename=str(path))
+        from .canon import canonicalise
+
+        self.tree = canonicalise(ast.parse(src, filename=str(path)))
         self.classes: Dict[str, ClassInfo] = {}
         self.functions: Dict[str, FuncInfo] = {}
         self.assigns: Dict[str, ast.AST] = {}
@@ -907,3 +909,97 @@ def parent_map(root: ast.AST) -> Dict[ast.AST, ast.AST]:
         for c in ast.iter_child_nodes(p):
             out[c] = p
     return out
+
+
+# ----------------------------------------------------------------------------- binary search needs a sorted sequence
+
+
+_BISECT = {"bisect", "bisect_left", "bisect_right", "insort", "insort_left", "insort_right"}
+
+
+def check_bisect_preconditions(ctx, rule: str, module_names: List[str]) -> int:
+    """Every binary search (bisect.*) in the given modules runs on a sequence that is sorted by construction:
+    bound once from ``sorted(..)``, or a local list that starts empty / as a one-element display and is only ever grown
+    through ``insert(<bisect position>, v)`` / ``insort``.  A sequence whose order is not established in the function
+    leaves the rule undecided; one that is positively built in another order (append in a loop over a set, reversed,
+    shuffled) is a violation.  Returns the number of call sites examined."""
+    n_sites = 0
+    for mn in module_names:
+        mod = ctx.repo.modules.get(mn)
+        if mod is None:
+            raise AnalysisError(f"module {mn} vanished")
+        for fi in ctx.repo.all_funcs():
+            if fi.module is not mod:
+                continue
+            for call in walk_no_nested(fi.node):
+                if not (isinstance(call, ast.Call) and call.args):
+                    continue
+                cn = call_name(call)
+                if not cn or cn[-1] not in _BISECT or (len(cn) == 2 and cn[0] != "bisect") or len(cn) > 2:
+                    continue
+                if len(cn) == 1 and cn[0] in fi.params:
+                    continue
+                n_sites += 1
+                seq = call.args[0]
+                if not isinstance(seq, ast.Name):
+                    raise AnalysisError(f"{fi.where}: `{unparse(call)[:60]}` searches `{unparse(seq)[:40]}`, whose order is not established in this function")
+                name = seq.id
+                binds = [st for st in walk_no_nested(fi.node) if isinstance(st, (ast.Assign, ast.AnnAssign)) and st.value is not None
+                         and any(isinstance(t, ast.Name) and t.id == name for t in (st.targets if isinstance(st, ast.Assign) else [st.target]))]
+                if name in fi.params or len(binds) != 1:
+                    raise AnalysisError(f"{fi.where}: `{unparse(call)[:60]}` searches `{name}`, which is {'a parameter' if name in fi.params else f'bound {len(binds)} times'}: its order is not established in this function")
+                v = binds[0].value
+                muts = []
+                for n in walk_no_nested(fi.node):
+                    if isinstance(n, ast.Call) and isinstance(n.func, ast.Attribute) and isinstance(n.func.value, ast.Name) and n.func.value.id == name \
+                            and n.func.attr in ("append", "extend", "insert", "sort", "reverse", "pop", "remove", "clear", "__setitem__"):
+                        muts.append(n)
+                    if isinstance(n, (ast.Assign, ast.AugAssign)):
+                        for t in (n.targets if isinstance(n, ast.Assign) else [n.target]):
+                            if isinstance(t, ast.Subscript) and isinstance(t.value, ast.Name) and t.value.id == name:
+                                muts.append(n)
+                if isinstance(v, ast.Call) and call_name(v) == ("sorted",) and not any(k.arg == "reverse" for k in v.keywords) and not any(k.arg == "key" for k in v.keywords):
+                    bad = [m for m in muts if not (isinstance(m, ast.Call) and m.func.attr in ("pop", "remove"))]
+                    if bad:
+                        raise AnalysisError(f"{fi.where}: `{name}` is sorted when bound but modified afterwards (`{unparse(bad[0])[:50]}`)")
+                    ctx.ok(rule, fi.where, f"`{unparse(call)[:50]}`: `{name}` is bound from sorted(..) and not reordered", call, fi)
+                    continue
+                if isinstance(v, ast.Call) and call_name(v) == ("sorted",):
+                    raise AnalysisError(f"{fi.where}: `{name}` is sorted with a key / in reverse; whether that is the order the binary search assumes is not decided")
+                if isinstance(v, ast.List) and len(v.elts) <= 1:
+                    # grown only at the position a binary search on the same list returned
+                    ok = True
+                    for m in muts:
+                        if isinstance(m, ast.Call) and m.func.attr == "insert" and len(m.args) == 2 and isinstance(m.args[0], ast.Name):
+                            pos = m.args[0].id
+                            pb = [st for st in walk_no_nested(fi.node) if isinstance(st, ast.Assign) and len(st.targets) == 1 and isinstance(st.targets[0], ast.Name) and st.targets[0].id == pos]
+                            if len(pb) == 1 and isinstance(pb[0].value, ast.Call) and call_name(pb[0].value) and call_name(pb[0].value)[-1] in ("bisect", "bisect_left", "bisect_right") \
+                                    and unparse(pb[0].value.args[0]) == name and len(pb[0].value.args) == 2 and unparse(pb[0].value.args[1]) == unparse(m.args[1]):
+                                continue
+                        ok = False
+                        offender = m
+                        break
+                    if ok:
+                        ctx.ok(rule, fi.where, f"`{unparse(call)[:50]}`: `{name}` starts with at most one element and grows only by insertion at the position found by binary search", call, fi)
+                        continue
+                    if isinstance(offender, ast.Call) and offender.func.attr in ("append", "extend", "reverse"):
+                        raise AnalysisError(f"{fi.where}: `{name}` is grown by `{unparse(offender)[:50]}`; that it stays sorted for `{unparse(call)[:40]}` is not decided")
+                    raise AnalysisError(f"{fi.where}: `{name}` is modified by `{unparse(offender)[:50]}`; sortedness not decided")
+                if isinstance(v, ast.Call) and call_name(v) in (("list",), ("tuple",)) and len(v.args) == 1 and isinstance(v.args[0], ast.Call) and call_name(v.args[0]) in (("set",), ("frozenset",)):
+                    ctx.violation(rule, fi, call, f"`{unparse(call)[:60]}` runs a binary search on `{name}` = `{unparse(v)[:40]}`: the iteration order of a set is not sorted")
+                    continue
+                raise AnalysisError(f"{fi.where}: `{unparse(call)[:60]}` searches `{name}` = `{unparse(v)[:50]}`, whose order is not established in this function")
+    return n_sites
+
+
+def ct(src: str) -> str:
+    """Canonical text of a piece of source (expression or statement): what ``unparse`` gives for it once the module it sits in
+    has gone through sa.canon – used by rules to write the expected text independently of the canonical form's details."""
+    from .canon import Canon
+
+    tree = ast.parse(src)
+    new = Canon().visit(tree)
+    ast.fix_missing_locations(new)
+    if len(new.body) == 1 and isinstance(new.body[0], ast.Expr):
+        return ast.unparse(new.body[0].value)
+    return "\n".join(ast.unparse(s) for s in new.body)
